@@ -19,6 +19,9 @@
 #include <string.h>
 #include <stddef.h>
 
+#ifndef OUT_X_ARG
+#define OUT_X_ARG(ap) va_arg(ap, unsigned)
+#endif
 #ifndef OUT_CAP
 #define OUT_CAP 256
 #endif
@@ -90,7 +93,12 @@ v_format(char *dst, size_t cap, const char *fmt, va_list ap)
 			while (k > 0)
 				V_PUT(tmp[--k]);
 		} else if (fmt[0] == '0' && fmt[1] == '4' && fmt[2] == 'x') {
+#ifdef VERIF_REPLAY
 			unsigned v = va_arg(ap, unsigned);
+#else
+			/* CBMC 6.11 stores a variadic argument with its unpromoted type: token.c passes *(unsigned char *)lit */
+			unsigned v = OUT_X_ARG(ap);
+#endif
 
 			fmt += 2;
 			k = 0;
